@@ -86,7 +86,7 @@ func c16rRun(c c16rCase) (v vVerdict) {
 	shard, _ := strconv.Atoi(os.Getenv("VERIF_SHARD"))
 	port := 0
 	for try := 0; try < 50 && port == 0; try++ {
-		cand := 5000 + (shard%64)*100 + (c16Counter*3+try)%100 // a TCP range of its own: the other C16 harnesses run at the same time
+		cand := 5000 + (shard%64)*100 + (os.Getpid()*7+c16Counter*3+try)%100 // a TCP range of its own: the other C16 harnesses run at the same time
 		if l, err := net.Listen("tcp", fmt.Sprintf(":%d", cand)); err == nil {
 			l.Close()
 			port = cand
@@ -239,7 +239,8 @@ func c16rRun(c c16rCase) (v vVerdict) {
 	}
 	stopUpdater()
 	if !saved {
-		return vFailf("not-saved", "no configuration was saved within 9 s of the end of a session that published %d saveable topics", saveable)
+		// the main C16 harness judges "a save happens"; here a late save only means the comparison cannot be made
+		return vVerdict{Inconclusive: fmt.Sprintf("no configuration was saved within 9 s of the end of a session that published %d saveable topics", saveable)}
 	}
 	time.Sleep(20 * time.Millisecond)
 	if err := c16SetupViper(home); err != nil {
